@@ -21,7 +21,8 @@ PROPS = {
                      'memory_getTok', 'memory_getAuth', 'memory_clearAuth', 'memory_remove', 'memory_sweep_invisible',
                      'read_sees_latest_write', 'read_sees_latest_login_state', 'ids_do_not_interfere',
                      'remove_erases_everything', 'clear_keeps_tokens', 'created_fixed_by_first_write',
-                     'first_write_sets_created', 'replica_irrelevant', 'redis_clear_absent'],
+                     'first_write_sets_created', 'replica_irrelevant', 'redis_clear_absent',
+                     'redis_write_success_is_faultfree', 'redis_read_success_is_faultfree', 'redis_fault_is_error'],
         'trusted': ['Redis command semantics (HSET/HMSET/HSETNX/HDEL/HMGET/HGET/DEL/EXPIREAT) as modelled in AuthModel/Store/Redis.lean; miniredis stands in for Redis in the differential run',
                     'go-redis (struct scanning, time encoding), sync.Mutex; jwt parsing is the oracle `parses`',
                     'atomicity of the memory store under concurrency is supported by a linearizability search over recorded concurrent histories (sampled, not proved)'],
@@ -73,7 +74,8 @@ PROPS = {
         'trusted': ['hand-written interaction-tree model of the handler tied to the code by the differential run', 'oracles: jwt parsing/claims (jwx), JWS verification, SHA-256; url.Parse of the callback URI', 'interleavings: per-check theorems hold for every thread under any schedule; cross-thread consumption (overlapping callbacks of one session) is exercised by enumerating interleavings on the real code, not proved; generator freshness/distinctness is an assumption discharged by C06'],
     },
     'C09': {
-        'theorems': ['logout_answer', 'logout_answer_shape', 'logout_only_after_removal', 'removal_erases', 'ok_requires_tokens_read', 'writes_need_prior_read', 'resurrection_logout_answered', 'resurrection_inflight_ok', 'logout_resurrection'],
+        'theorems': ['logout_answer', 'logout_answer_shape', 'logout_only_after_removal', 'removal_erases', 'ok_requires_tokens_read', 'writes_need_prior_read', 'resurrection_logout_answered', 'resurrection_inflight_ok', 'logout_resurrection',
+                     'redis_removal_reported_faithfully', 'redis_nothing_after_removal', 'logout_uri_configured_or_discovered', 'discovery_refuses_logout_without_uri'],
         'trusted': ['hand-written interaction-tree model of the handler tied to the code by the differential run', 'oracles: jwt parsing/claims (jwx), JWS verification, SHA-256; url.Parse of the callback URI', 'schedule-level finality is NOT a theorem: the model exhibits the resurrection schedule (known finding); every interleaving of logout x one or two checks is enumerated on real goroutines and on the Sched model'],
     },
     'C06': {
@@ -90,7 +92,7 @@ PROPS = {
         'trusted': ['protojson decoding (the model starts from the decoded document); net/url.Parse, redis.ParseURL and net.ParseIP are oracles', 'only the fields that take part in loading are modelled (TLS/CA fields, skip_verify, fetch intervals are carried by the real code, not by the model)', 'hook: harness/export/internal/export.go (build tag verif) constructs LocalConfigFile with a path'],
     },
     'C20': {
-        'theorems': ['trust_decision', 'skip_only_when_requested_and_no_ca', 'identical_settings_share', 'superseded_watcher_stops', 'every_user_of_a_file_keeps_its_watcher', 'rotation_reaches_entry', 'rotation_leaves_others', 'unparsable_rotation_ignored', 'pool_and_watchers_locked'],
+        'theorems': ['trust_decision', 'skip_only_when_requested_and_no_ca', 'identical_settings_share', 'identical_means_same_key', 'superseded_watcher_stops', 'every_user_of_a_file_keeps_its_watcher', 'rotation_reaches_entry', 'rotation_leaves_others', 'unparsable_rotation_ignored', 'pool_and_watchers_locked'],
         'level_text': 'PARTIAL. Lean 4 theorems about the trust decision, the pool and the watcher state machine of a hand-written model, tied to the code by real TLS handshakes against servers chaining to the old/new/unconfigured CA; crypto/tls, x509 chain building and timer scheduling are trusted.',
         'trusted': ['crypto/tls and crypto/x509 (handshake, chain building, SystemCertPool)', 'the settings hash (fnv64a) is treated as injective on the settings in play', 'timing: a rotation is judged after 7 refresh intervals', 'the in-place update of RootCAs on a live tls.Config is a data race (C16 known finding)'],
     },
